@@ -24,8 +24,12 @@ oracle:         on hand-written packages (0-8 declarations of all seven value ty
                 * histories (2-4 list / get / update calls on ONE UserFields object, or two objects on one source; destination a
                   fresh buffer, or the source path / buffer itself): every call's result depends only on the source as it is at
                   that moment and on its own arguments (independent reference + the same call on a fresh object)
+                * typed values: update() handed Python objects (floats needing up to 17 significant digits, very large / small
+                  floats, ints beyond 2**53, Decimal, bool, instances of a str subclass): what listing the output returns
+                  stands for the value given (read back with the value's own constructor: exact) and is written the way Python
+                  writes that value (str(value); a bool in a boolean field: true / false); the model is driven with that string
 """
-import io, os, sys, hashlib, json, tempfile, shutil, contextlib, copy
+import io, os, sys, hashlib, json, tempfile, shutil, contextlib, copy, math
 from common import enc_str, dec_str, InfraError, REPO
 import ufgen
 from ufgen import OFFICENS, TEXTNS, SEVEN, spec_attr
@@ -81,6 +85,139 @@ INITIAL = {u'string': [u'old', u'', u'o<l>d'], u'float': [u'1.5', u'0'], u'perce
 NEW = {u'float': [u'3.25', u'-0.5', u'1e3', u'42', u'0'], u'percentage': [u'0.5', u'1', u'12.75'],
        u'currency': [u'100', u'19.99', u'-3'], u'date': [u'2024-02-29', u'1999-12-31T23:59:59', u'2024-02-29T00:00:00.5'],
        u'time': [u'PT12H00M00S', u'PT0S', u'PT1H30M'], u'boolean': [u'true', u'false']}
+
+
+# ---------------------------------------------------------------------------------------------------------------
+# typed values: update() is handed Python objects, not only strings.  In a case (and in a replay file) such a value
+# is {'py': kind, 'lit': literal}: float -> float.hex() (exact, independent of repr), int / decimal -> decimal
+# literal, bool -> 'True' / 'False', strsub -> the text of an instance of a str subclass
+# ---------------------------------------------------------------------------------------------------------------
+class FieldText(str):
+    """a str subclass as applications have them (a marked / translated string); its text is the str itself"""
+    origin = 'c19'
+
+
+NUMERIC_TYPES = (u'float', u'percentage', u'currency')
+TEXT_TYPES = (u'string', u'zzz', None)
+# floats whose shortest exact lexical form needs up to 17 significant digits, very large / small ones, the borders of the
+# positional / exponent notations, integers beyond 2**53 as floats; ints beyond 2**53 and 2**64; Decimals with
+# trailing zeros, exponents, more digits than a double holds
+FIXED_FLOATS = [0.1 + 0.2, 1727654321.123, 98765432109.87, 1.0 / 3, 2.0 / 3, 9007199254740994.0, 1.7976931348623157e308,
+                5e-324, 2.2250738585072014e-308, 1e22, 1e23, 123456789012345680.0, -0.0, 1e16, 9999999999999998.0, 0.1,
+                1e-05, 2.5, 1e-07, 0.0001, 123456.789012345, -1234567890.1234567, 4.35, 100.0, 1e100, 6.02214076e23,
+                3.141592653589793, 2.718281828459045e-10]
+FIXED_INTS = [0, 7, -3, 2 ** 53 + 1, 10 ** 30, -(2 ** 64) - 1, 123456789012345678, 99999999999999999999]
+FIXED_DECIMALS = [u'0.10', u'1E+3', u'123456789.123456789123456789', u'-0.000', u'19.99', u'1.0000000000000000000001', u'7']
+
+
+def enc_value(v):
+    from decimal import Decimal
+    if isinstance(v, bool):
+        return {'py': 'bool', 'lit': str(v)}
+    if isinstance(v, float):
+        return {'py': 'float', 'lit': v.hex()}
+    if isinstance(v, int):
+        return {'py': 'int', 'lit': '%d' % v}
+    if isinstance(v, Decimal):
+        return {'py': 'decimal', 'lit': str(v)}
+    if type(v) is not str:
+        return {'py': 'strsub', 'lit': str.__str__(v)}
+    return v
+
+
+def dec_value(v):
+    """what update() is handed"""
+    from decimal import Decimal
+    if not isinstance(v, dict):
+        return v
+    k, lit = v['py'], v['lit']
+    if k == 'float':
+        return float.fromhex(lit)
+    if k == 'int':
+        return int(lit)
+    if k == 'bool':
+        return lit == 'True'
+    if k == 'decimal':
+        return Decimal(lit)
+    if k == 'strsub':
+        return FieldText(lit)
+    raise InfraError('unknown typed value %r' % (v,))
+
+
+def kind_of(v):
+    return v['py'] if isinstance(v, dict) else 'str'
+
+
+def lexical_form(value, types):
+    """the new value as listing must return it (the property: "listing the fields of the output returns the new values"):
+    the value given, in the lexical form Python gives it - str(value); a bool given to a boolean field in the lexical
+    form of that value type (true / false)"""
+    if isinstance(value, bool) and types and all(t == u'boolean' for t in types):
+        return u'true' if value else u'false'
+    if isinstance(value, str):
+        return str.__str__(value)
+    return str(value)
+
+
+def stands_for(listed, value):
+    """does the listed string stand for the value that was given?  (read back with the constructor of the value's own
+    type: exact for float - a double survives its 17 significant digits -, int and Decimal)"""
+    from decimal import Decimal
+    try:
+        if isinstance(value, bool):
+            return listed in ((u'true', u'True') if value else (u'false', u'False'))
+        if isinstance(value, float):
+            back = float(listed)
+            if value != value:
+                return back != back
+            return back == value and math.copysign(1.0, back) == math.copysign(1.0, value)
+        if isinstance(value, int):
+            return int(listed) == value
+        if isinstance(value, Decimal):
+            return Decimal(listed).as_tuple() == value.as_tuple()
+    except Exception:      # noqa
+        return False
+    return listed == str.__str__(value)
+
+
+def rand_float(rng):
+    import struct
+    r = rng.random()
+    if r < 0.3:
+        return rng.random() * 10 ** rng.randint(-12, 20) * rng.choice([1, 1, -1])
+    if r < 0.5:
+        return rng.randint(10 ** 9, 10 ** 12) / rng.choice([100.0, 1000.0, 7.0])          # amounts with cents, time stamps
+    if r < 0.65:
+        return rng.choice([0.1, 0.2, 0.7, 1.1, 4.35, 0.57]) * rng.choice([3, 7, 100, 0.1])  # results of float arithmetic
+    if r < 0.8:
+        while True:
+            x = struct.unpack('>d', struct.pack('>Q', rng.getrandbits(64)))[0]               # any finite double
+            if x == x and x not in (float('inf'), float('-inf')):
+                return x
+    if r < 0.9:
+        return float(rng.randint(2 ** 53, 2 ** 70))
+    return rng.choice(FIXED_FLOATS)
+
+
+def rand_typed(rng, ts):
+    """a typed value for a field whose declarations have the value types ts, or None if none is sensible"""
+    from decimal import Decimal
+    if all(t == u'boolean' for t in ts):
+        return rng.choice([True, False])
+    if all(t in NUMERIC_TYPES or t in TEXT_TYPES for t in ts):
+        r = rng.random()
+        if r < 0.5:
+            return rand_float(rng)
+        if r < 0.7:
+            return rng.choice(FIXED_INTS + [rng.randint(2 ** 53, 2 ** 90), -rng.randint(0, 10 ** 6), rng.getrandbits(64)])
+        if r < 0.85:
+            return Decimal(rng.choice(FIXED_DECIMALS + [u'%d.%02d' % (rng.randint(0, 10 ** 12), rng.randint(0, 99))]))
+        if all(t in TEXT_TYPES for t in ts):
+            return rng.choice([True, False]) if r < 0.92 else FieldText(rand_string(rng))
+        return FieldText(rng.choice(NEW[ts[0]] if ts[0] in NEW else [u'12.5']))
+    if len(set(ts)) == 1 and ts[0] in NEW:
+        return FieldText(rng.choice(NEW[ts[0]]))        # date / time: the text of a str subclass
+    return None
 
 
 def rand_string(rng):
@@ -146,6 +283,13 @@ def gen_case(rng):
             else:
                 t = ts[0]
                 data[nm] = rand_string(rng) if t in (u'string', u'zzz', None) else rng.choice(NEW[t])
+    # typed values: a quarter of the documents hand update() Python objects (float, int, Decimal, bool, a str subclass)
+    if rng.random() < 0.25:
+        for nm, ts in sorted(by_name.items()):
+            if nm in data and rng.random() < 0.7:
+                tv = rand_typed(rng, ts)
+                if tv is not None:
+                    data[nm] = enc_value(tv)
     if mode in ('unknown-only',) or rng.random() < 0.4:
         for k in range(rng.choice([1, 2])):
             data[rng.choice([u'nosuch', u'A', u'a ', u'', u'x<&>'])] = rand_string(rng)
@@ -288,13 +432,20 @@ def run_case(chk, drv, case, tmpdir=None, lexical=False):
     [(signature, detail)] (already reported to chk unless chk is None)"""
     from odf.userfield import UserFields
     from odf.opendocument import load
+    lexical_only = lexical
     fails = []
 
     def fail(sig, detail):
         fails.append((sig, detail))
         if chk is not None:
             chk.fail(sig, case, detail)
-    data = dict((k, v) for k, v in case['data'])
+    # what update() is handed (typed values decoded) / the strings listing must return for them (`lexical_form`)
+    typed = dict((k, dec_value(v)) for k, v in case['data'])
+    types_of = {}
+    for a in case['decls'] + case['header']:
+        d = dict(tuple(x) for x in a)
+        types_of.setdefault(d[u'text:name'], []).append(d.get(u'office:value-type'))
+    data = dict((k, lexical_form(v, types_of.get(k))) for k, v in typed.items())
     src, src_members = build(case)
     h0 = hashlib.sha256(src).hexdigest()
     src_decls = ufgen.read_decls(list(src_members.items()))
@@ -324,9 +475,9 @@ def run_case(chk, drv, case, tmpdir=None, lexical=False):
     if raised:
         # nothing can be listed: still try the update, so that its failure is on record too
         try:
-            UserFields(io.BytesIO(src), io.BytesIO()).update(dict(data))
+            UserFields(io.BytesIO(src), io.BytesIO()).update(dict(typed))
         except Exception as e:      # noqa
-            if not lexical:
+            if not lexical_only:
                 fail('tool-raises:%s:update' % type(e).__name__, 'update raised %r on a well-formed source whose declarations are schema-valid' % (e,))
         return fails
     if hashlib.sha256(sbuf.getvalue()).hexdigest() != h0:
@@ -375,7 +526,7 @@ def run_case(chk, drv, case, tmpdir=None, lexical=False):
     out = io.BytesIO()
     exc = None
     try:
-        UserFields(sbuf, out).update(dict(data))
+        UserFields(sbuf, out).update(dict(typed))
     except ValueError as e:
         exc = e
     except Exception as e:      # noqa
@@ -401,7 +552,7 @@ def run_case(chk, drv, case, tmpdir=None, lexical=False):
             chk.corr_diff(case, 'ValueError: %s' % exc, ans, 'update raised')
         if out.getvalue() != b'':
             fail('failed-update-writes', 'update raised %r but wrote %d bytes' % (exc, len(out.getvalue())))
-        if not lexical:
+        if not lexical_only:
             fail('tool-raises:%s:update' % type(exc).__name__, 'update raised %r on values valid for their types' % (exc,))
         return fails
     B = ufgen.unzip(out.getvalue())
@@ -416,8 +567,24 @@ def run_case(chk, drv, case, tmpdir=None, lexical=False):
         impl = 'ok ' + show_items(itemsB) + ' ; ' + show_rows(lenient(rows_out))
         if ' '.join(ans.split()) != ' '.join(impl.split()):
             chk.corr_diff(case, impl[:3000], ans[:3000], 'items of content.xml+styles.xml after update ; rows listed from the output')
-    if lexical:
+    if lexical_only:
         return fails
+    # ---------------- oracle 0: typed values - what is listed for a named field stands for the value given, in the
+    # lexical form Python gives that value
+    for k in sorted(typed):
+        v = typed[k]
+        if type(v) is str:
+            continue
+        kind = kind_of(enc_value(v))
+        for n, t, listed in rows_out:
+            if n != k:
+                continue
+            if listed is None or not stands_for(listed, v):
+                fail('typed-value-changed:%s' % kind, 'update({%r: %r}) on a field of type %r: listing the output returns %r, which does not '
+                     'stand for the value given' % (k, v, t, listed))
+            elif lenient(listed) != lenient(data[k]):
+                fail('typed-value-form:%s' % kind, 'update({%r: %r}) on a field of type %r: listing the output returns %r, the value given '
+                     'is written %r' % (k, v, t, listed, data[k]))
     # ---------------- oracle 1: listing the output
     want_out = [(n, t, (data[n] if n in data else v)) for n, t, v in want_src]
     if sorted(map(repr, lenient(rows_out))) != sorted(map(repr, lenient(want_out))):
@@ -474,6 +641,12 @@ def gen_history(rng, case):
                 else:
                     data[nm] = rand_string(rng) if ts[0] in (u'string', u'zzz', None) else rng.choice(NEW[ts[0]])
         if rng.random() < 0.2:
+            for nm, ts in sorted(by_name.items()):
+                if nm in data and rng.random() < 0.6:
+                    tv = rand_typed(rng, ts)
+                    if tv is not None:
+                        data[nm] = enc_value(tv)          # a Python object instead of a string
+        if rng.random() < 0.2:
             data[u'nosuch'] = u'x'
         return sorted(data.items())
     ops = []
@@ -516,6 +689,10 @@ def run_history(chk, drv, case, tmpdir):
             chk.fail(sig, case, detail)
     hist = case['history']
     mode = hist['mode']
+    types_of = {}
+    for a in case['decls'] + case['header']:
+        d = dict(tuple(x) for x in a)
+        types_of.setdefault(d[u'text:name'], []).append(d.get(u'office:value-type'))
     src, _ = build(case)
     path = os.path.join(tmpdir, 'hist.odt')
     if mode.startswith('path'):
@@ -563,10 +740,11 @@ def run_history(chk, drv, case, tmpdir):
                     if got != (same[0][2] if same else None):
                         fail('history-read', '%s: get(%r) = %r, the source now says %r' % (where, arg, got, same[:1]))
                 else:
-                    data = dict((k, v) for k, v in arg)
+                    typed = dict((k, dec_value(v)) for k, v in arg)
+                    data = dict((k, lexical_form(v, types_of.get(k))) for k, v in typed.items())
                     if not in_place:
                         u.dest_file = io.BytesIO()
-                    u.update(dict(data))
+                    u.update(dict(typed))
                     out = current() if in_place else u.dest_file.getvalue()
                     if not in_place and current() != now:
                         fail('source-modified', '%s changed the source' % where)
@@ -577,7 +755,7 @@ def run_history(chk, drv, case, tmpdir):
                         fail('history-update', '%s: declarations of the output are not those of the source (as it was when the call '
                              'was made) with the named values replaced: (got, want) %r' % (where, bad))
                     fresh = io.BytesIO()
-                    UserFields(io.BytesIO(now), fresh).update(dict(data))
+                    UserFields(io.BytesIO(now), fresh).update(dict(typed))
                     diff = members_equal(ufgen.unzip(fresh.getvalue()), B)
                     if diff:
                         fail('history-update', '%s: output differs from the same update made by a fresh object on the same bytes: %s' % (where, diff))
@@ -603,7 +781,8 @@ def run(chk, replay=None):
     chk.rule = ('%d seeded hand-written packages: 0-8 user-field declarations (every one of the seven value types in each document '
                 'with >= 7 declarations; unknown / missing type, stale attributes, duplicate names, declarations in a page header) next '
                 'to paragraphs, styles, a picture, a thumbnail and an extra member, x an update dictionary (subset / all / none / '
-                'unknown names; values with markup, whitespace, non-ASCII, empty; typed values valid for the type); '
+                'unknown names; values with markup, whitespace, non-ASCII, empty; typed values valid for the type; Python objects as '
+                'values: floats needing up to 17 significant digits, very large / small, ints beyond 2**53, Decimal, bool, a str subclass); '
                 'non-trivial = at least one declaration is named by the dictionary' % N)
     if replay is not None:
         case = replay['input']
@@ -664,6 +843,22 @@ def run(chk, replay=None):
         for ch in EDGE_CHARS:
             fixed.append(dict(base, decls=[decl_of(u'string', 0), decl_of(None, 1), [(u'text:name', u'k' + source_safe(ch)), (u'office:value-type', u'string'), (u'office:string-value', u'v' + source_safe(ch))]],
                               data=[(u'f0', u'a' + ch + u'b'), (u'f1', ch)]))
+        # typed values, on every run: every float / int / Decimal of the fixed pools to a numeric, a string and a typeless
+        # field (two rotations, so that each meets two different value types), bools to boolean and string fields, instances
+        # of a str subclass to every type
+        from decimal import Decimal
+        pool = FIXED_FLOATS + FIXED_INTS + [Decimal(x) for x in FIXED_DECIMALS]
+        slots = [u'float', u'string', u'percentage', None, u'currency']
+        for rot in (0, 1):
+            for j in range(0, len(pool), len(slots)):
+                vals = pool[j:j + len(slots)]
+                ts = [slots[(q + rot) % len(slots)] for q in range(len(vals))]
+                fixed.append(dict(base, decls=[decl_of(t, q) for q, t in enumerate(ts)],
+                                  data=[(u'f%d' % q, enc_value(v)) for q, v in enumerate(vals)]))
+        fixed.append(dict(base, decls=[decl_of(u'boolean', 0), decl_of(u'boolean', 1), decl_of(u'string', 2), decl_of(None, 3)],
+                          data=[(u'f0', enc_value(True)), (u'f1', enc_value(False)), (u'f2', enc_value(True)), (u'f3', enc_value(False))]))
+        fixed.append(dict(base, decls=[decl_of(t, q) for q, t in enumerate(alltypes)],
+                          data=[(u'f%d' % q, enc_value(FieldText(NEW[t][1] if t in NEW else u'n<&>\x85 l'))) for q, t in enumerate(alltypes)]))
         for i in range(N):
             case = fixed[i] if i < len(fixed) else gen_case(chk.rng)
             src_names = set(dict(a)[u'text:name'] for a in case['decls'] + case['header'])
@@ -674,6 +869,9 @@ def run(chk, replay=None):
             chk.count('decls=%d' % len(case['decls']))
             for t in types:
                 chk.count('updated-type.' + str(t))
+            for k, v in case['data']:
+                if k in src_names and isinstance(v, dict):
+                    chk.count('typed-value.' + v['py'])
             if any(v == u'' for k, v in case['data'] if k in src_names):
                 chk.count('updated-with-empty-value')
             if case['header']:
@@ -692,6 +890,8 @@ def run(chk, replay=None):
                      sample={'history': [o[0] for o in case['history']['ops']], 'mode': case['history']['mode']} if i % 60 == 0 else None)
             chk.count('history.' + case['history']['mode'])
             chk.count('history.calls=%d' % len(case['history']['ops']))
+            if any(o[0] == 'update' and any(isinstance(v, dict) for _, v in o[1]) for o in case['history']['ops']):
+                chk.count('history.typed-values')
             run_history(chk, drv, case, tmp)
         # lexical cases: the boolean converter (correspondence only)
         for v in LEXICAL_BOOL:
